@@ -29,6 +29,10 @@ class Fork(Exception):
         self.options = options   # list of (extra_pc_list, forced_value)
 
 
+class StopAtJoin(Exception):
+    pass
+
+
 class _Undef:
     def __repr__(self):
         return 'UNDEF'
@@ -280,6 +284,9 @@ class State:
         self.fresh = 0
         self.exc_msgs = {}
         self.access_hook = None
+        self.stop_at = None
+        self.pending_phi = None
+        self.divs = []        # recorded (pc, denominator, where) of floating divisions by symbolic values
 
     def clone(self):
         s = State.__new__(State)
@@ -296,6 +303,7 @@ class State:
         s.tls_dtors = list(self.tls_dtors)
         s.notes = list(self.notes)
         s.exc_msgs = dict(self.exc_msgs)
+        s.divs = list(self.divs)
         if isinstance(self.align_policy, list):
             s.align_policy = list(self.align_policy)
         return s
@@ -382,6 +390,10 @@ class Executor:
         self.branch_hook = None
         self.trace = False
         self.typeids = {}
+        self.merge = False
+        self.record_divs = False
+        self.merge_budget = 4000
+        self._ipdom = {}
         self.stats = {'steps': 0, 'forks': 0, 'paths': 0, 'feas_queries': 0}
         from . import intrinsics
         intrinsics.install(self)
@@ -941,6 +953,8 @@ class Executor:
             elif op == 'fmul':
                 r = d.mul(a, b)
             elif op == 'fdiv':
+                if self.record_divs and isinstance(b, Term):
+                    st.divs.append((list(st.pc), b, fr.fn.name))
                 r = d.div(a, b)
             else:
                 raise ExecError(op)
@@ -1102,6 +1116,9 @@ class Executor:
         return 0
 
     def _enter(self, st, fr, label):
+        if st.stop_at is not None and st.stop_at[1] == label and st.stop_at[0] == len(st.frames) and st.stop_at[2] is fr.fn:
+            fr.prev = fr.label
+            raise StopAtJoin()
         fr.prev = fr.label
         fr.label = label
         try:
@@ -1141,6 +1158,10 @@ class Executor:
                 t_ok = self.feasible(st, c)
                 f_ok = self.feasible(st, T.bnot(c))
                 if t_ok and f_ok:
+                    if self.merge:
+                        m = self.try_merge(st, fr, ins, c)
+                        if m:
+                            return None
                     raise Fork([([c], True), ([T.bnot(c)], False)])
                 if not t_ok and not f_ok:
                     raise ExecError('both branch directions infeasible (inconsistent path condition)')
@@ -1149,6 +1170,209 @@ class Executor:
         elif isinstance(c, int):
             c = c & 1
         self._enter(st, fr, ins.a if c else ins.b)
+
+    # ---- diamond merging -------------------------------------------------------------------
+    def ipdom(self, fn):
+        """immediate post-dominators of fn's blocks (dict label -> label or None)"""
+        r = self._ipdom.get(fn.name)
+        if r is not None:
+            return r
+        succ = {}
+        for lab, blk in fn.blocks.items():
+            t = blk[-1]
+            if t.op == 'br':
+                succ[lab] = [t.a] if t.c is None else [t.a, t.b]
+            elif t.op == 'switch':
+                succ[lab] = [t.b] + [l for _, l in t.c]
+            elif t.op == 'invoke':
+                succ[lab] = [t.c[0], t.c[1]]
+            else:
+                succ[lab] = []
+        labels = list(fn.blocks)
+        EXIT = '<exit>'
+        allset = set(labels) | {EXIT}
+        pdom = {l: set(allset) for l in labels}
+        pdom[EXIT] = {EXIT}
+        changed = True
+        order = list(reversed(labels))
+        while changed:
+            changed = False
+            for l in order:
+                ss = succ[l] or [EXIT]
+                new = set.intersection(*[pdom[x] for x in ss]) | {l}
+                if new != pdom[l]:
+                    pdom[l] = new
+                    changed = True
+        ip = {}
+        for l in labels:
+            cands = pdom[l] - {l}
+            best = None
+            for c_ in cands:
+                # the immediate post-dominator is the one post-dominated by all the other candidates
+                if all((o == c_) or (o in pdom.get(c_, {EXIT})) for o in cands):
+                    best = c_
+                    break
+            ip[l] = None if best in (None, EXIT) else best
+        self._ipdom[fn.name] = ip
+        return ip
+
+    def try_merge(self, st, fr, ins, c):
+        """execute both arms of a symbolic branch up to the immediate post-dominator and merge the states with ite.
+        Returns True (st has been replaced in place by the merged state, positioned in the join block) or False."""
+        join = self.ipdom(fr.fn).get(fr.label)
+        if join is None:
+            return False
+        depth = len(st.frames)
+        arms = []
+        for cond, target in ((c, ins.a), (T.bnot(c), ins.b)):
+            s2 = st.clone()
+            s2.pc.append(cond)
+            s2.forced = []
+            s2.stop_at = (depth, join, fr.fn)
+            s2.pending_phi = None
+            s2.steps = 0
+            f2 = s2.frames[-1]
+            try:
+                if target == join:
+                    f2.prev = f2.label
+                else:
+                    self._enter(s2, f2, target)
+                    budget = self.merge_budget
+                    ops = self._ops
+                    while True:
+                        ff = s2.frames[-1]
+                        i2 = ff.block[ff.idx]
+                        budget -= 1
+                        if budget < 0:
+                            return False
+                        r = ops[i2.op](s2, ff, i2)
+                        if r is not None:
+                            return False      # path ended inside the arm
+            except StopAtJoin:
+                pass
+            except (Fork, PathError, ZeroDivisionError):
+                return False
+            if len(s2.frames) != depth or s2.exc is not None:
+                return False
+            arms.append(s2)
+        A, B = arms
+        if len(A.objs) != len(B.objs) or len(A.ledger) != len(B.ledger) or len(A.log) != len(B.log) or A.nalloc != B.nalloc:
+            return False
+        fa, fb = A.frames[-1], B.frames[-1]
+        # phis of the join block, per arm
+        blk = fr.fn.blocks[join]
+        k = 0
+        phivals = []
+        while blk[k].op == 'phi':
+            p = blk[k]
+            try:
+                va = A.pending_phi[p.dst] if A.pending_phi is not None else self.val(A, fa, p.ty, p.a[fa.prev])
+                vb = B.pending_phi[p.dst] if B.pending_phi is not None else self.val(B, fb, p.ty, p.a[fb.prev])
+            except KeyError:
+                return False
+            mv = self._merge_val(c, va, vb, p.ty)
+            if mv is _NOMERGE:
+                return False
+            phivals.append((p.dst, mv))
+            k += 1
+        # memory
+        newcells = []
+        for oa, ob in zip(A.objs, B.objs):
+            if oa is ob:
+                continue
+            if oa.base != ob.base or oa.live != ob.live or oa.size != ob.size:
+                return False
+            if oa.cells == ob.cells:
+                continue
+            keys = set(oa.cells) | set(ob.cells)
+            upd = {}
+            for kk in keys:
+                ca, cb = oa.cells.get(kk), ob.cells.get(kk)
+                if ca is not None and cb is not None and ca[0] == cb[0] and (ca[1] is cb[1] or (not isinstance(ca[1], Term) and not isinstance(cb[1], Term) and type(ca[1]) == type(cb[1]) and ca[1] == cb[1])):
+                    continue
+                if ca is None or cb is None:
+                    other = ca or cb
+                    if not oa.zero:
+                        return False
+                    z = Fraction(0) if isinstance(other[1], (Fraction, float)) or (isinstance(other[1], Term) and other[1].sort == 'R') else 0
+                    if self.dom.name == 'C' and isinstance(z, Fraction):
+                        z = 0.0
+                    ca = ca or (other[0], z)
+                    cb = cb or (other[0], z)
+                if ca[0] != cb[0]:
+                    return False
+                mv = self._merge_raw(c, ca[1], cb[1], ca[0])
+                if mv is _NOMERGE:
+                    return False
+                upd[kk] = (ca[0], mv)
+            newcells.append((oa, upd))
+        # commit: A becomes the merged state
+        for oa, upd in newcells:
+            oa.cells.update(upd)
+        nested_same_join = st.stop_at is not None and st.stop_at[1] == join and st.stop_at[0] == depth and st.stop_at[2] is fr.fn
+        fa.regs = dict(fr.regs)
+        A.pending_phi = None
+        if nested_same_join:
+            # the enclosing merge stops at the same join block: hand the merged phi values over instead of entering it
+            A.pending_phi = dict(phivals)
+            fa.label = fr.label
+            fa.block = fr.block
+            fa.idx = fr.idx
+            fa.prev = fr.prev
+        else:
+            for d_, v_ in phivals:
+                fa.regs[d_] = v_
+            fa.prev = None
+            fa.label = join
+            fa.block = blk
+            fa.idx = k
+        A.pc = list(st.pc)
+        A.divs = A.divs + B.divs[len(st.divs):]
+        A.stop_at = st.stop_at
+        A.forced = list(st.forced)
+        A.steps = st.steps + A.steps + B.steps
+        A.notes = st.notes
+        st.__dict__.update(A.__dict__)
+        self.stats['merges'] = self.stats.get('merges', 0) + 1
+        if nested_same_join:
+            raise StopAtJoin()
+        return True
+
+    def _merge_val(self, c, va, vb, ty):
+        ty = L.res(ty)
+        if va is vb:
+            return va
+        if va is UNDEF or vb is UNDEF:
+            return _NOMERGE
+        if isinstance(ty, L.FloatT):
+            return T.ite(c, va, vb, 'R')
+        if isinstance(ty, L.IntT) and ty.bits == 1:
+            return T.ite(c, T._tob(va), T._tob(vb), 'B')
+        if isinstance(ty, (L.IntT, L.PtrT)):
+            if isinstance(va, Bits) or isinstance(vb, Bits):
+                return _NOMERGE
+            if not isinstance(va, Term) and not isinstance(vb, Term) and va == vb:
+                return va
+            return T.ite(c, va, vb, ('bv', self._ibits(ty)))
+        return _NOMERGE
+
+    def _merge_raw(self, c, va, vb, size):
+        if va is vb:
+            return va
+        if va is UNDEF or vb is UNDEF or isinstance(va, Bits) or isinstance(vb, Bits):
+            return _NOMERGE
+        isr = lambda v: isinstance(v, (Fraction, float)) or (isinstance(v, Term) and v.sort == 'R')
+        if isr(va) and isr(vb):
+            if self.dom.name == 'C':
+                return _NOMERGE
+            return T.ite(c, va, vb, 'R')
+        if isr(va) or isr(vb):
+            return _NOMERGE
+        isb = lambda v: isinstance(v, bool) or (isinstance(v, Term) and v.sort == 'B')
+        if isb(va) or isb(vb):
+            va = T.zext(va, 1, size * 8) if isinstance(va, Term) and va.sort == 'B' else int(va)
+            vb = T.zext(vb, 1, size * 8) if isinstance(vb, Term) and vb.sort == 'B' else int(vb)
+        return T.ite(c, va, vb, ('bv', size * 8))
 
     def op_switch(self, st, fr, ins):
         v = self.val(st, fr, ins.ty, ins.a)
@@ -1416,6 +1640,13 @@ class Executor:
 
 class _Throw:
     pass
+
+
+class _NoMerge:
+    pass
+
+
+_NOMERGE = _NoMerge()
 
 
 THROW = _Throw()
